@@ -110,6 +110,74 @@ func VerifC18Dial() {
 	vReach("end")
 }
 
+// VerifC18Entry: every successful connect, through each exported entry point
+// (Connect, ConnectContext, ConnectTo with and without a password argument,
+// ConnectToContext) and again after a disconnect, dials the server that entry
+// point names and registers with the password then in force: CAP LS (iff
+// negotiation), PASS (iff a password is set), NICK, USER - once each, in order.
+func VerifC18Entry() {
+	capneg := vLen("capneg", 0, 1) == 1
+	pass := vGenField("pw", 0, 1)
+	cfg := NewConfig("me", "id", "nm")
+	cfg.Server, cfg.Proxy = "srv:1", "vtest://proxy"
+	cfg.Pass = pass
+	cfg.PingFreq = 0
+	cfg.Flood = true
+	cfg.EnableCapabilityNegotiation = capneg
+	rounds := vParam("R", 2)
+	d := &vDialer{}
+	for r := 0; r < rounds; r++ {
+		d.wires = append(d.wires, vNewLiveWire())
+	}
+	vInstallDialer(d)
+	conn := Client(cfg)
+	server := "srv:1"
+	for r := 0; r < rounds; r++ {
+		rs := string([]byte{byte('0' + r)})
+		var err error
+		switch vLen("entry"+rs, 0, 4) {
+		case 0:
+			err = conn.Connect()
+		case 1:
+			err = conn.ConnectContext(context.Background())
+		case 2:
+			server = "other:2"
+			err = conn.ConnectTo(server)
+		case 3:
+			server = "third:3"
+			pass = vGenField("pw"+rs, 0, 1)
+			err = conn.ConnectTo(server, pass)
+		case 4:
+			server = "fourth:4"
+			err = conn.ConnectToContext(context.Background(), server)
+		}
+		vAssert(err == nil, "connect-ok")
+		if err != nil {
+			return
+		}
+		vRunPending()
+		vAssert(len(d.addrs) == r+1 && d.addrs[r] == server, "dialled-address")
+		var want []string
+		if capneg {
+			want = append(want, "CAP LS\r\n")
+		}
+		if pass != "" {
+			want = append(want, "PASS "+pass+"\r\n")
+		}
+		want = append(want, "NICK me\r\n", "USER id 12 * :nm\r\n")
+		got := d.wires[r].written
+		vAssert(len(got) == len(want), "registration-line-count")
+		if len(got) == len(want) {
+			for i := range want {
+				vAssert(got[i] == want[i], "registration-line")
+			}
+		}
+		conn.Close()
+		vRunPending()
+	}
+	vReach("end")
+}
+
 // VerifC18Ping: every server PING carrying a token is answered by a PONG with the same token.
 func VerifC18Ping() {
 	conn := vNewConn(vLen("track", 0, 1) == 1)
